@@ -1,20 +1,36 @@
-pub mod c09;
-pub mod c16;
+//! One module per property. Modules that only need the decode crate's always-present API are
+//! compiled in every build configuration; the others need features of the crates under test.
+pub mod c02;
+pub mod c03;
+pub mod c06;
 pub mod c08;
 pub mod c10;
 pub mod c11;
 pub mod c12;
 pub mod c13;
-pub mod c02;
-pub mod c07;
-pub mod c03;
+
+#[cfg(feature = "full")]
 pub mod c01;
-pub mod c05;
+#[cfg(feature = "full")]
 pub mod c04;
-pub mod c06;
-pub mod c14;
+#[cfg(feature = "full")]
+pub mod c05;
+#[cfg(feature = "full")]
+pub mod c07;
+#[cfg(feature = "full")]
+pub mod c09;
+#[cfg(feature = "full")]
 pub mod c19;
-pub mod c15;
-pub mod c17;
-pub mod c18;
+#[cfg(feature = "full")]
 pub mod c20;
+
+#[cfg(any(feature = "full", feature = "v-aws"))]
+pub mod c14;
+#[cfg(any(feature = "full", feature = "v-aws"))]
+pub mod c15;
+#[cfg(any(feature = "full", feature = "v-aws"))]
+pub mod c16;
+#[cfg(any(feature = "full", feature = "v-aws"))]
+pub mod c17;
+#[cfg(feature = "full")]
+pub mod c18;
